@@ -1,7 +1,7 @@
 (* Properties/C17.v — attribute container, JSON storage form, merge_attributes, equality.
    Statements only; every proof is `exact`. *)
 From GV Require Import Base.Prelude Base.PyStr Model.Bins Model.DB Model.Parser Model.Import Model.Attrs Model.Container
-  Model.Json Proofs.C05Proofs Proofs.C17Proofs Proofs.JsonProofs.
+  Model.Json Proofs.C05Proofs Proofs.C17Proofs Proofs.JsonProofs Proofs.SortedStrs.
 Open Scope Z_scope.
 
 (* however a value is set, a sequence is stored: a scalar becomes a one-item list, lists/tuples are kept *)
@@ -75,6 +75,13 @@ Theorem C17_merge_attributes_sorted : forall a1 a2, exists m, merge_attributes f
   m = map (fun kv => (fst kv, as_set (snd kv))) (premerge a1 a2).
 Proof. exact l_merge_attributes_sorted. Qed.
 Print Assumptions C17_merge_attributes_sorted.
+
+(* ... and "sorted" means what it says: every value list of the result is strictly ascending in Python's str order (code
+   points) - sorted and duplicate-free *)
+Theorem C17_merge_values_ascending : forall a1 a2 m, merge_attributes false a1 a2 = Ok m ->
+  forall k vs, In (k, vs) m -> ascending vs.
+Proof. exact l_merge_values_ascending. Qed.
+Print Assumptions C17_merge_values_ascending.
 
 (* two Features compare equal exactly when their printed lines are equal; equal Features hash alike *)
 Theorem C17_eq_iff_print : forall tq f g, feature_eq tq f g = true <-> feature_str tq f = feature_str tq g.
